@@ -2,14 +2,16 @@
 """Unbiased sensitivity sample: mechanically generated one-token mutants of /repo/src.
 
     tools/automutants.py gen [--seed N] [--count K]     # list a seeded sample of candidate edits
-    tools/automutants.py run [--seed N] [--count K] [--budget-min M]
+    tools/automutants.py run [--seed N] [--count K] [--budget-min M] [--par P]
 
-For each sampled mutant: apply to /repo, build; skip if it does not compile; run the pinned
+For each sampled mutant: apply to a scratch worktree of /repo, build; skip if it does not compile; run the pinned
 suite (a mutant the suite already kills is recorded and skipped); otherwise run the quick
 checks relevant to the edited file (cheapest first) until one reports a violation. Results go
-to /verif/out/automutants.json (and are appended across invocations). /repo is always restored.
+to /verif/out/automutants.json (and are appended across invocations). /repo is never touched.
 Survivors need triage: equivalent mutant, or a gap in the checks."""
-import json, os, random, re, subprocess, sys, time
+import concurrent.futures, json, os, random, re, sys, threading, time
+sys.path.insert(0, os.path.dirname(os.path.abspath(__file__)))
+from scratch import Worktree
 
 REPO = "/repo"
 VERIF = "/verif"
@@ -42,10 +44,6 @@ FILES = {
 }
 
 
-def sh(cmd, timeout=3600, cwd=None):
-    return subprocess.run(cmd, shell=True, capture_output=True, text=True, timeout=timeout, cwd=cwd)
-
-
 def candidates():
     out = []
     for f in FILES:
@@ -68,8 +66,8 @@ def candidates():
     return out
 
 
-def apply(m):
-    p = os.path.join(REPO, m["file"])
+def apply(m, root):
+    p = os.path.join(root, m["file"])
     lines = open(p).read().split("\n")
     if lines[m["line"] - 1] != m["old"]:
         return False
@@ -78,15 +76,11 @@ def apply(m):
     return True
 
 
-def revert():
-    sh(f"git -C {REPO} checkout -- src")
-
-
 def main():
     args = sys.argv[1:]
     mode = args[0] if args else "gen"
     opt = lambda k, d: int(args[args.index(k) + 1]) if k in args else d
-    seed, count, budget = opt("--seed", 1), opt("--count", 40), opt("--budget-min", 600)
+    seed, count, budget, par = opt("--seed", 1), opt("--count", 40), opt("--budget-min", 600), opt("--par", 1)
     cands = candidates()
     rnd = random.Random(seed)
     rnd.shuffle(cands)
@@ -96,54 +90,47 @@ def main():
         for m in sample:
             print(f"{m['file']}:{m['line']} {m['kind']}  | {m['old'].strip()[:90]}")
         return
-    if sh(f"git -C {REPO} status --porcelain -- src").stdout.strip():
-        print("refusing: /repo/src has uncommitted changes", file=sys.stderr)
-        sys.exit(2)
     outp = f"{VERIF}/out/automutants.json"
     results = json.load(open(outp)) if os.path.exists(outp) else []
     done = {(r["file"], r["line"], r["kind"]) for r in results}
     t_start = time.time()
-    try:
-        for m in sample:
-            if (m["file"], m["line"], m["kind"]) in done:
-                continue
-            if time.time() - t_start > budget * 60:
-                break
-            r = {"file": m["file"], "line": m["line"], "kind": m["kind"], "old": m["old"].strip(), "new": m["new"].strip()}
-            if not apply(m):
-                continue
-            b = sh(f"cd {REPO} && cargo build --offline 2>&1 | tail -3")
-            if "error" in b.stdout:
+    lock = threading.Lock()
+    jobs = max(2, 16 // par)
+
+    def one(m):
+        if (m["file"], m["line"], m["kind"]) in done or time.time() - t_start > budget * 60:
+            return None
+        r = {"file": m["file"], "line": m["line"], "kind": m["kind"], "old": m["old"].strip(), "new": m["new"].strip()}
+        with Worktree("automutant") as wt:
+            if not apply(m, wt.path):
+                return None
+            if not wt.builds():
                 r["status"] = "does not compile"
-                revert(); results.append(r); json.dump(results, open(outp, "w"), indent=1)
-                print(m["file"], m["line"], m["kind"], "-> does not compile")
-                continue
-            t = sh(f"cd {REPO} && timeout 900 cargo test --workspace --no-fail-fast --offline 2>&1 | grep -E '^test result|^error' | head -20")
-            suite_ok = "FAILED" not in t.stdout and "error" not in t.stdout and t.stdout.count("test result: ok") >= 7
-            if not suite_ok:
+                return r
+            ok, _ = wt.suite_passes()
+            if not ok:
                 r["status"] = "killed by the pinned suite"
-                revert(); results.append(r); json.dump(results, open(outp, "w"), indent=1)
-                print(m["file"], m["line"], m["kind"], "-> killed by the pinned suite")
-                continue
+                return r
             r["status"] = "survives the pinned suite"
             r["checks"] = {}
-            caught = None
+            r["caught_by"] = None
             for c in FILES[m["file"]]:
-                t0 = time.time()
-                cr = sh(f"cd {VERIF} && VERIF_EVIDENCE_DIR={VERIF}/out/evidence-automutants timeout 1800 ./check {c} quick 2>&1 | tail -12")
-                lines = cr.stdout.splitlines()
-                viol = [i for i, l in enumerate(lines) if l.startswith("VIOLATION")]
-                herr = any("HARNESS-ERROR" in l for l in lines)
-                r["checks"][c] = {"violations": len(viol), "harness_error": herr, "seconds": round(time.time() - t0, 1),
-                                  "first": lines[viol[0] + 1].strip()[:200] if viol and viol[0] + 1 < len(lines) else ""}
-                if viol:
-                    caught = c
+                res = wt.check(c, jobs=jobs)
+                r["checks"][c] = res
+                if res["violations"]:
+                    r["caught_by"] = c
                     break
-            r["caught_by"] = caught
-            revert(); results.append(r); json.dump(results, open(outp, "w"), indent=1)
-            print(m["file"], m["line"], m["kind"], "-> survives suite;", "caught by " + caught if caught else "NOT CAUGHT", "|", m["old"].strip()[:80])
-    finally:
-        revert()
+        return r
+
+    with concurrent.futures.ThreadPoolExecutor(par) as ex:
+        for r in ex.map(one, sample):
+            if r is None:
+                continue
+            with lock:
+                results.append(r)
+                json.dump(results, open(outp, "w"), indent=1)
+            what = r["status"] if r["status"] != "survives the pinned suite" else ("survives suite; " + ("caught by " + r["caught_by"] if r["caught_by"] else "NOT CAUGHT"))
+            print(f"{r['file']}:{r['line']} {r['kind']} -> {what} | {r['old'][:80]}", flush=True)
     n_surv = [r for r in results if r.get("status") == "survives the pinned suite"]
     print(f"total {len(results)}: {len(n_surv)} survive the pinned suite, of which {sum(1 for r in n_surv if r.get('caught_by'))} caught by a check")
 
